@@ -95,6 +95,13 @@ def worker_loop(world, seed, tier, baseline, indices, deadline, timeout, keep_lo
                 lambda: one_run(world, seed, idx, tier, baseline), timeout=3 * timeout)
             if status == 'ok':
                 agg['slow_reruns'] = agg.get('slow_reruns', 0) + 1
+        if status == 'error' and 'child died without output' in res:
+            # the child was killed from outside (memory pressure on a loaded machine, ...): a run is
+            # a pure function of its seed, so run it once more; a run that kills its own process
+            # dies again and is then reported as a harness error
+            status, res = core.run_in_child(
+                lambda: one_run(world, seed, idx, tier, baseline), timeout=3 * timeout)
+            agg['died_reruns'] = agg.get('died_reruns', 0) + 1
         if status == 'timeout':
             # regenerate the journal (pure function of the seed) so it can be replayed
             agg['timeouts'] += 1
@@ -189,6 +196,8 @@ def run_batch(world, tier, seed, runs, workers, first, wall_cap):
             continue
         for key in ('runs', 'events', 'sim_time', 'timeouts'):
             total[key] += agg[key]
+        for key in ('slow_reruns', 'died_reruns'):
+            total[key] = total.get(key, 0) + agg.get(key, 0)
         for key in ('fired', 'probes', 'refs', 'classes'):
             merge_counts(total[key], agg[key])
         for sig, nt in agg['sigs'].items():
